@@ -20,6 +20,11 @@ func init() {
 		Explanation: "R44.6 (spill-over order): in addToPendingBlockEvaluator the retry of a group after ErrNoSpace happens only after numPendingWholeBlocks was advanced and the evaluator's byte counter reset, so the retry's liveness test (LastValid against evaluator round + pending whole blocks) is made for the block the group actually lands in.",
 		Floor:       map[string]int{"R44.6": 2},
 	})
+	extend("C14", Extension{
+		Run:         func(c *Ctx) { determinismCatchpoint(c, "R14.5") },
+		Explanation: "R14.5 (map-iteration order over the call closure of the catchpoint tracker's commit, first-stage and label methods, interface calls resolved to every module implementation in ledger, ledgercore, trackerdb, sqlitedriver and merkletrie): every `range` over a map is order-insensitive by construction or is in the reviewed table with the reason why Go's randomised iteration order cannot reach a hashed value; a new or unrecognised map iteration fails until reviewed.",
+		Floor:       map[string]int{"R14.5": 10},
+	})
 	extend("C11", Extension{
 		Run:         ruleTxTailLeaseReload,
 		Explanation: "R11.6 (lease reload): txTail.loadFromDisk restores each persisted lease with the expiry LastValid[lease.TxnIdx] of its own transaction (the Leases list is sparse, so any other index restores a wrong expiry), mirroring the TxnIdx recorded when the round was encoded.",
